@@ -51,6 +51,9 @@ TRANSPARENT_METHODS = {"astype", "copy"}
 TRANSPARENT_FUNCS = {"numpy.copy", "copy.deepcopy", "copy.copy", "numpy.asarray", "numpy.ascontiguousarray"}
 
 
+DICT_METHODS = {"keys", "values", "items", "get", "pop", "update", "setdefault", "copy", "clear", "deepcopy"}
+
+
 def C(v):
     return ("c", v)
 
@@ -129,6 +132,7 @@ class Result:
         self.events = []
         self.env = {}
         self.loops = {}
+        self.tries = []
 
     def stores(self):
         return [e for e in self.events if e.kind == "store"]
@@ -155,6 +159,7 @@ class ANF:
         self.param_alias = dict(param_alias or {})
         self.strip = strip
         self.options = dict(options or {})      # get_net_option(net, <name>) -> constant
+        self.adict = {"net"}                    # symbols that are pandapipesNet objects (attribute == item access)
         self.res = Result()
         self._seq = 0
         self._bound = 0
@@ -249,12 +254,21 @@ class ANF:
                     self.assign(it.optional_vars, v, env, cond, loops, s)
             return self.block(s.body, env, cond, loops)
         if isinstance(s, ast.Try):
+            before = dict(env)
+            i0 = len(self.res.events)
             x = self.block(s.body, env, cond, loops)
+            i1 = len(self.res.events)
+            rec = {"node": s, "cond": cond, "loops": loops, "body_events": (i0, i1), "handlers": [],
+                   "body": {k: v for k, v in env.items() if key(v) != key(before.get(k, ("undef",)))}}
             for h in s.handlers:
-                e2 = dict(env)
+                e2 = dict(before)
                 if h.name:
                     e2[h.name] = N("exc:" + h.name)
+                j0 = len(self.res.events)
                 self.block(h.body, e2, cond + ((("exc", U(h.type)), True),), loops)
+                rec["handlers"].append({"type": U(h.type), "events": (j0, len(self.res.events)),
+                                        "env": {k: v for k, v in e2.items() if key(v) != key(before.get(k, ("undef",)))}})
+            self.res.tries.append(rec)
             if not x:
                 self.block(s.orelse, env, cond, loops)
             self.block(s.finalbody, env, cond, loops)
@@ -339,6 +353,9 @@ class ANF:
             return
         if isinstance(t, ast.Attribute):
             base = self.eval(t.value, env, cond, loops)
+            if base[0] == "n" and base[1] in self.adict:
+                self.ev("store", stmt, cond, loops, base=base, index=(C(t.attr),), value=v, aug=aug, target=t)
+                return
             self.ev("store", stmt, cond, loops, base=base, index=(C("." + t.attr),), value=v, aug=aug, target=t)
             return
         raise Unsupported("assignment target %s" % U(t))
@@ -426,6 +443,9 @@ class ANF:
                     if r is not None and r[0] == "module":
                         return ("x", r[1])
                 return ("x", d)
+            if b[0] == "n" and b[1] in self.adict and e.attr not in DICT_METHODS and not e.attr.startswith("_"):
+                # attribute access on the net (an ADict) is item access
+                return read(b, (C(e.attr),))
             return ("attr", b, e.attr)
         if isinstance(e, ast.Subscript):
             b = ev(e.value)
